@@ -266,6 +266,10 @@ def _path(ctx, params):
     # ------------------------------------------------------------------ C16 (finite-difference plumbing at run level)
     if "C16" in groups and not callable_grad:
         mode = params.get("jac_mode")
+        # the finite-difference modes work on every box, degenerate sides (lb == ub) included: a documented
+        # termination reason and a finite gradient
+        nan_jac = any(isinstance(v, SReal) and v.is_special for v in jac)
+        ctx.check("C16.run_terminates_normally_on_every_box", key is None or nan_jac, info=dict(info, message=msg, nan_in_jac=nan_jac))
         ctx.check("C16.nfev_counts_stencil_evaluations", res["nfev"] != nfev_base + len(run.fcalls), info=dict(info, nfev=res["nfev"], calls=len(run.fcalls)))
         bad = []
         terms = []
